@@ -2694,3 +2694,63 @@ for _P, _R in (("C01", "R1.18"), ("C05", "R5.16")):
             if has_path(node_class_graph, path_node, in_node):
                 if not in_node.outgoing_logic:
                     return True''', "guard clause with continue")
+
+# ============================================================ waves s / t
+for _P, _R in (("C01", "R1.25"), ("C05", "R5.21")):
+    M(_P, "impossible-merge-steps-all-paths", WALK,
+      '''                for i in range(len(logic_block.paths)):
+                    if logic_block.merge_nodes[i] == next_node_class:
+                        new_puml_node, _ = update_puml_graph_with_event_node(
+                            puml_graph,
+                            next_node_class,
+                            logic_block.puml_nodes[i],
+                        )
+                        logic_block.puml_nodes[i] = new_puml_node
+                        logic_block.paths[i] = next_node_class''',
+      '''                for i in range(len(logic_block.paths)):
+                    new_puml_node, _ = update_puml_graph_with_event_node(
+                        puml_graph,
+                        next_node_class,
+                        logic_block.puml_nodes[i],
+                    )
+                    logic_block.puml_nodes[i] = new_puml_node
+                    logic_block.paths[i] = next_node_class''', _R,
+      "every path of the block steps over the rejected merge node (seed C01-s)")
+for _P, _R in (("C07", "R7.13"), ("C01", "R1.15")):
+    M(_P, "prune-before-break-rewire", CUG,
+      '''    update_graph_for_break_events_with_path_to_root_event(
+        break_events_with_path_back_to_root,
+        loop.loop_events,
+        loop_event,
+        graph,
+    )
+    remove_nodes_without_path_back_to_loop(
+        set(graph.nodes), {root_event}, graph
+    )''',
+      '''    remove_nodes_without_path_back_to_loop(
+        set(graph.nodes), {root_event}, graph
+    )
+    update_graph_for_break_events_with_path_to_root_event(
+        break_events_with_path_back_to_root,
+        loop.loop_events,
+        loop_event,
+        graph,
+    )''', _R, "the unreachable remainder is pruned before the break events "
+      "are re-attached (seed C07-s)")
+M("C13", "event-model-rejects-zero-duration", "otel_to_pv/otel_to_pv_types.py",
+  "class OTelEvent(BaseModel):", '''class OTelEvent(BaseModel):
+    @model_validator(mode="after")
+    def verify_timestamps(self):
+        if self.end_timestamp <= self.start_timestamp:
+            raise ValueError("end before start")
+        return self
+''', "R13.2", "a validator rejects spans the documented extraction yields (seed C13-s)")
+M("C04", "loader-skips-an-entry", EV,
+  "        event = Event(eventInput.eventType)\n        for eventSetList in eventInput.outgoingEventSets:",
+  "        if eventInput.eventType in (DUMMY_END_EVENT):\n            continue\n        event = Event(eventInput.eventType)\n        for eventSetList in eventInput.outgoingEventSets:",
+  "R4.2", "an entry of the model file is skipped on load (seed C04-s)")
+M("C05", "rendering-counts-on-the-node", PG,
+  "        blocks = []\n        blocks.append(f\"{' ' * indent}:{self.node_type}{branch_info};\")",
+  "        blocks = []\n        self.extra_info[\"rendered\"] = True\n        blocks.append(f\"{' ' * indent}:{self.node_type}{branch_info};\")",
+  "R5.22", "rendering leaves state on the node: a shared loop body is "
+  "rendered several times (seed C05-t)")
